@@ -111,6 +111,13 @@ pub fn inject(src: &str, pos: &[PosEntry], inj: &Injection) -> Option<(String, S
             let mut sites: Vec<&PosEntry> = of("open-tag");
             sites.extend(of("open-tag-selfclosed"));
             let sites: Vec<&PosEntry> = sites.into_iter().filter(normal).collect();
+            if inj.variant % 3 == 2 {
+                // cut inside an end tag: `</view` at the end of the source
+                let ends: Vec<&PosEntry> = of("end-tag").into_iter().filter(normal).collect();
+                let s = pick(&ends, inj.site)?;
+                let cut = s.byte_start + 2 + s.text.len();
+                return Some((src[..cut].to_string(), format!("source cut inside the end tag </{}> at byte {}", s.text, cut)));
+            }
             let s = pick(&sites, inj.site)?;
             // cut after the tag name, or just before the closing `>` / `/>`
             let name_end = s.byte_start + 1 + s.text.len();
@@ -329,6 +336,7 @@ pub fn run(tier: Tier, seed: u64, findings: &Findings) -> i32 {
     let mut r = engine::run_generated(&loc, &cfg, cases, 8, 16, findings, 1);
     r.extra.insert("location_stream_cases".into(), json!(r.evaluations));
     report.merge(r);
+    super::fuzz_stage::replay_regress("tmpl_positions", "C15", &mut report);
     engine::finish(
         Finish {
             cfg,
